@@ -316,3 +316,25 @@ Proof.
   - vm_compute. repeat constructor; intros H; repeat (destruct H as [H|H]; try discriminate); auto.
   - vm_compute. repeat constructor; auto; right; reflexivity.
 Qed.
+
+(* ---------------------------------------------------------------------------------------- *)
+(* CloneNamedNode from ANOTHER model (repaired code): the cloned node carries no reference at all,
+   so it cannot designate anything of the source or anything unrelated in the destination *)
+Theorem clone_named_node_clean s st name st' id :
+  WF st -> clone_named_node (Some s) st name = (st', id) -> id <> NPOS \/ st' <> st ->
+  exists b, id = vlen (bl st) /\ vget (bl st') id = Some b /\
+            Forall (fun r => r = NPOS) (crefs b) /\ Forall (fun r => r = NPOS) (ptrs b) /\
+            bl st' = bl st ++ [b] /\ WF st'.
+Proof.
+  intros HW E Hnew. unfold clone_named_node in E.
+  destruct (find_node (src_of (Some s) st) name) as [[i sb]|]; [|inversion E; subst; destruct Hnew; congruence].
+  destruct (anode (heap (src_of (Some s) st) (uid sb))) as [[[[a b0] cleared] cstart]|];
+    [|inversion E; subst; destruct Hnew; congruence].
+  match type of E with add_object ?st0 ?tn ?cr ?pt ?a = _ =>
+    pose proof (add_object_spec st0 tn cr pt a HW) as H; rewrite E in H; cbn [fst snd] in H;
+    destruct H as (HW' & Eb & Eid & _) end.
+  eexists. split; [exact Eid|]. split; [rewrite Eb, Eid; apply vget_app_last|].
+  cbn [crefs ptrs]. split; [|split; [|split; [exact Eb|exact HW']]].
+  - apply Forall_forall. intros r Hr. apply in_map_iff in Hr. destruct Hr as (? & <- & _). reflexivity.
+  - apply Forall_forall. intros r Hr. apply in_map_iff in Hr. destruct Hr as (? & <- & _). reflexivity.
+Qed.
